@@ -1079,8 +1079,9 @@ func (in *Interp) evalTop(at *Node, e *Expr) (v interface{}, written bool) {
 		if w {
 			in.fail(at, "writer-not-last", "safe writer is not the last command")
 		}
-		if sw, ok := safeWriter(e.Name); ok {
-			if fv, isFn := in.mustFn(at, e.Name); isFn && fv.name == e.Name {
+		// the name is resolved like any other (scopes, variables, globals, built-ins): what it is bound to decides
+		if fv, isFn := in.mustFnQuiet(e.Name); isFn {
+			if sw, ok := safeWriter(fv.name); ok {
 				in.raw(sw(PrintValue(pv)))
 				for _, a := range e.Args {
 					in.raw(sw(PrintValue(in.eval(at, a))))
@@ -1090,8 +1091,8 @@ func (in *Interp) evalTop(at *Node, e *Expr) (v interface{}, written bool) {
 		}
 		return in.call(at, e.Name, e.Args, pv, true), false
 	case "call":
-		if sw, ok := safeWriter(e.Name); ok && len(e.Args) > 0 {
-			if fv, isFn := in.mustFn(at, e.Name); isFn && fv.name == e.Name {
+		if fv, isFn := in.mustFnQuiet(e.Name); isFn && len(e.Args) > 0 {
+			if sw, ok := safeWriter(fv.name); ok {
 				for _, a := range e.Args {
 					in.raw(sw(PrintValue(in.eval(at, a))))
 				}
@@ -1100,6 +1101,16 @@ func (in *Interp) evalTop(at *Node, e *Expr) (v interface{}, written bool) {
 		}
 	}
 	return in.eval(at, e), false
+}
+
+// mustFnQuiet: what name is bound to, if that is a function value (no failure for unknown names).
+func (in *Interp) mustFnQuiet(name string) (fnValue, bool) {
+	v, ok := in.lookupVar(name)
+	if !ok {
+		return fnValue{}, false
+	}
+	fv, isFn := v.(fnValue)
+	return fv, isFn
 }
 
 func (in *Interp) mustFn(at *Node, name string) (fnValue, bool) {
